@@ -38,7 +38,7 @@ package kernel
 // The result is the member list of the LAST cached sequence whose timestamp is below the threshold (ListIdx determines i uniquely),
 // or empty when there is none. Stated existentially (a universally quantified "forall i :: ListIdx(i) ==> ..." assumption makes a matching loop).
 //@ func (node *Node) NodesListWithoutState
-//@   property C10, C29
+//@   property C10, C29, C11
 //@   requires NodeRep(node)
 //@   modifies nothing
 //@   ensures [list] IsList(SeqsOf(node, acceptedOnly), threshold, result)
